@@ -72,6 +72,18 @@ Rotr(w, x, y) == RotRW(Mod(w), x, LowBits(Mod(w), y, Lg(w)))
 Plus(w, x, y)  == AddW(Mod(w), x, y)
 Minus(w, x, y) == SubW(Mod(w), x, y)
 
+\* ------------------------------------------------------------- iteration
+\* For(Step, st, lo, hi):  "for k = lo to hi do st = Step(st, k)".
+\* This is plain iteration; it is written by bisection only because TLC's
+\* evaluation cost grows quadratically with the recursion depth, and the loops
+\* below run up to 3 * 512 times.
+RECURSIVE For(_, _, _, _)
+For(Step(_, _), st, lo, hi) ==
+    IF lo > hi THEN st
+    ELSE IF lo = hi THEN Step(st, lo)
+    ELSE LET mid == (lo + hi) \div 2
+         IN For(Step, For(Step, st, lo, mid), mid + 1, hi)
+
 \* ----------------------------------------------------------- key expansion
 \* Step 1: copy the secret key K[0..b-1] into L[0..c-1], c = max(1, ceil(8b/w)),
 \* little-endian, zero-padding the last word (b = 0: c = 1, L[0] = 0).
@@ -83,52 +95,54 @@ KeyWords(w, key) ==
     IN TLCEval([i \in 1..c |-> ToWord(w, SubSeqB(padded, (i - 1) * u + 1, i * u))])
 
 \* Step 2: S[0] = P_w; S[i] = S[i-1] + Q_w for i = 1..t-1, t = 2(r+1)
-RECURSIVE InitS(_, _, _)
-InitS(w, S, t) == IF Len(S) = t THEN S ELSE InitS(w, Append(S, Plus(w, S[Len(S)], Q(w))), t)
+\* (S is a 1-based tuple: S[i] is S[i + 1])
+InitS(w, t) == For(LAMBDA S, i : TLCEval(Append(S, Plus(w, S[i], Q(w)))), <<P(w)>>, 1, t - 1)
 
 \* Step 3: i = j = 0; A = B = 0; do 3 * max(t, c) times:
 \*     A = S[i] = (S[i] + A + B) <<< 3;
 \*     B = L[j] = (L[j] + A + B) <<< (A + B);
 \*     i = (i + 1) mod t;  j = (j + 1) mod c
-\* (S and L are 1-based tuples: S[i] is S[i + 1])
-RECURSIVE MixKey(_, _, _, _, _, _, _, _)
-MixKey(w, S, L, A, B, i, j, n) ==
-    IF n = 0 THEN S
-    ELSE LET three == NatW(Mod(w), 3, Len(A))
-             A2 == Rotl(w, Plus(w, Plus(w, S[i + 1], A), B), three)
-             AB == Plus(w, A2, B)
-             B2 == Rotl(w, Plus(w, L[j + 1], AB), AB)
-             S2 == TLCEval([S EXCEPT ![i + 1] = A2])
-             L2 == TLCEval([L EXCEPT ![j + 1] = B2])
-         IN MixKey(w, S2, L2, A2, B2, (i + 1) % Len(S), (j + 1) % Len(L), n - 1)
+\* One step, number k = 0, 1, ... (so i = k mod t, j = k mod c), on the state
+\* st = <<S, L, A, B>>:
+MixStep(w, st, k) ==
+    LET S == st[1]  L == st[2]  A == st[3]  B == st[4]
+        i == k % Len(S)
+        j == k % Len(L)
+        three == NatW(Mod(w), 3, Len(A))
+        A2 == Rotl(w, Plus(w, Plus(w, S[i + 1], A), B), three)
+        AB == Plus(w, A2, B)
+        B2 == Rotl(w, Plus(w, L[j + 1], AB), AB)
+    IN TLCEval(<<[S EXCEPT ![i + 1] = A2], [L EXCEPT ![j + 1] = B2], A2, B2>>)
 
 Max(a, b) == IF a > b THEN a ELSE b
 
 ExpandKey(w, r, key) ==
     LET L == KeyWords(w, key)
         t == 2 * (r + 1)
-        S == InitS(w, <<P(w)>>, t)
         zero == ZeroW(Len(P(w)))
-    IN MixKey(w, S, L, zero, zero, 0, 0, 3 * Max(t, Len(L)))
+    IN For(LAMBDA st, k : MixStep(w, st, k), <<InitS(w, t), L, zero, zero>>, 0, 3 * Max(t, Len(L)) - 1)[1]
 
 \* -------------------------------------------------------------- encryption
 \*   A = A + S[0];  B = B + S[1];
 \*   for i = 1 to r:  A = ((A xor B) <<< B) + S[2i];  B = ((B xor A) <<< A) + S[2i+1]
-RECURSIVE EncRounds(_, _, _, _, _, _)
-EncRounds(w, r, S, i, A, B) ==
-    IF i > r THEN <<A, B>>
-    ELSE LET A2 == Plus(w, Rotl(w, XorW(A, B), B), S[2 * i + 1])
-             B2 == Plus(w, Rotl(w, XorW(B, A2), A2), S[2 * i + 2])
-         IN EncRounds(w, r, S, i + 1, A2, B2)
+\* state AB = <<A, B>>
+EncRound(w, S, AB, i) ==
+    LET A2 == Plus(w, Rotl(w, XorW(AB[1], AB[2]), AB[2]), S[2 * i + 1])
+        B2 == Plus(w, Rotl(w, XorW(AB[2], A2), A2), S[2 * i + 2])
+    IN TLCEval(<<A2, B2>>)
+Encrypt(w, r, S, AB) ==
+    For(LAMBDA st, i : EncRound(w, S, st, i), <<Plus(w, AB[1], S[1]), Plus(w, AB[2], S[2])>>, 1, r)
 
 \*   for i = r downto 1:  B = ((B - S[2i+1]) >>> A) xor A;  A = ((A - S[2i]) >>> B) xor B
 \*   B = B - S[1];  A = A - S[0]
-RECURSIVE DecRounds(_, _, _, _, _)
-DecRounds(w, S, i, A, B) ==
-    IF i < 1 THEN <<Minus(w, A, S[1]), Minus(w, B, S[2])>>
-    ELSE LET B2 == XorW(Rotr(w, Minus(w, B, S[2 * i + 2]), A), A)
-             A2 == XorW(Rotr(w, Minus(w, A, S[2 * i + 1]), B2), B2)
-         IN DecRounds(w, S, i - 1, A2, B2)
+DecRound(w, S, AB, i) ==
+    LET B2 == XorW(Rotr(w, Minus(w, AB[2], S[2 * i + 2]), AB[1]), AB[1])
+        A2 == XorW(Rotr(w, Minus(w, AB[1], S[2 * i + 1]), B2), B2)
+    IN TLCEval(<<A2, B2>>)
+Decrypt(w, r, S, AB) ==
+    \* the k-th iteration (k = 1..r) is round i = r + 1 - k
+    LET st == For(LAMBDA s, k : DecRound(w, S, s, r + 1 - k), AB, 1, r)
+    IN <<Minus(w, st[1], S[1]), Minus(w, st[2], S[2])>>
 
 \* ------------------------------------------------- conformance interface
 \* the block is the little-endian bytes of A followed by those of B
@@ -139,8 +153,7 @@ Out(w, AB) == FromWord(w, AB[1]) \o FromWord(w, AB[2])
 RC5Sched(type, key, x) ==
     LET p == ParamTable[type] IN [w |-> p[1], r |-> p[2], S |-> ExpandKey(p[1], p[2], key)]
 RC5Enc(ks, in) ==
-    LET w == ks.w IN
-    Out(w, EncRounds(w, ks.r, ks.S, 1, Plus(w, HalfA(w, in), ks.S[1]), Plus(w, HalfB(w, in), ks.S[2])))
+    LET w == ks.w IN Out(w, Encrypt(w, ks.r, ks.S, <<HalfA(w, in), HalfB(w, in)>>))
 RC5Dec(ks, in) ==
-    LET w == ks.w IN Out(w, DecRounds(w, ks.S, ks.r, HalfA(w, in), HalfB(w, in)))
+    LET w == ks.w IN Out(w, Decrypt(w, ks.r, ks.S, <<HalfA(w, in), HalfB(w, in)>>))
 =============================================================================
